@@ -12,6 +12,12 @@ tie   : stream relate-dbl — generated valid pairs under arbitrary-double simil
         prepared on either side, a reused prepared geometry asked in random order, polygons whose holes decide (partner vertices all
         inside holes), walks of XY queries on one prepared geometry (row / column scans).  A failed `consistent` IS a failing input
         for the property: two paths disagree.
+        (relate-dbl also has a regular family "one element away from an area-less partner": a multi-element geometry with elements lying IN a partner
+        made of lines / points and one element sharing no point with it inside its envelope, mostly under an exact map — the inputs on which the
+        requireExteriorCheck / requireCovers flags of a named predicate decide which points RelateNG tests)
+        stream pred-converse — the REAL RelatePredicate classes, a predicate on (A,B) and its converse on (B,A) (flags, initialisation, mirrored events,
+        final value) against Model/Relate/Pred + EnvExit + Converse (theorems Props/C02Conv: requireCovers / requireExteriorCheck / requireInteraction /
+        envelope exit / initialisation / DE-9IM value are mirror images; converse_run_final)
         stream rect-fast — RectangleIntersects::intersects and its three callers on exact lattice input against Model/Relate/RectFast.lean
         (theorems rectIntersects_of_crossing / _of_corner: no witnessed intersection is overlooked, holes included) and, on valid input,
         against the witness reference refIntersects.
@@ -21,7 +27,7 @@ import os, sys, json, glob
 import verif, gtok
 
 LEVEL = "proof"
-PROPS = ["GeosModel.Props.C02"]
+PROPS = ["GeosModel.Props.C02", "GeosModel.Props.C02Conv"]
 DRV = "drv_c02"
 
 
@@ -308,6 +314,45 @@ def run(ctx):
                       {"kind": "failing-input", "stream": "point-setxy", "case": case, "impl": exp, "model": got,
                        "fields": "S <start: E empty | x:y> <setXY calls x:y ...> -> after each call P:x:y:minx:maxx:miny:maxy (doubles as hex bits)"},
                       signature={"conjunct": "point-setxy"})
+    # ---- the real RelatePredicate classes: a predicate asked about (A,B) and its converse asked about (B,A) (coveredBy / covers, within / contains,
+    # a pattern / the transposed pattern, the symmetric ones both ways) vs Model/Relate/Pred + EnvExit + Converse; theorems Props/C02Conv
+    rc_ = verif.run_stream(exe, "pred-converse", ctx.seed, 150000 if quick else 3000000, ctx.work, shards=8, driver_exe=DRV)
+    corr_extra["pred-converse"] = {"cases": rc_["cases"], "disagreements": len(rc_["disagreements"]) + rc_.get("more_disagreements", 0), "distribution": rc_["stats"]}
+    if rc_["error"]:
+        ctx.violation("stream pred-converse could not run: " + rc_["error"], {"kind": "tie-broken", "correspondence": "pred-converse", "detail": rc_["error"]}, nofail=True)
+    elif rc_["disagreements"]:
+        seen_cv = set()
+        for idx, case, exp, got in sorted(rc_["disagreements"], key=lambda d: len(d[1])):
+            e, g = exp.split(" "), got.split(" ")
+            if len(e) != 4 or len(g) != 4:
+                part = "format"
+            elif e[3] != g[3]:
+                part = "final-value"
+            elif e[0] != g[0] or e[1] != g[1]:
+                part = "flags"
+            else:
+                part = "initialisation"
+            kindname = case.split()[1].split(":")[0] if len(case.split()) > 1 else "?"
+            if (part, kindname) in seen_cv or len(seen_cv) >= 4:
+                continue
+            seen_cv.add((part, kindname))
+            if part == "final-value":
+                # the model's two final values are equal (theorem converse_run_final) and equal the DE-9IM definition on the matrix the events
+                # build (C01 early_exit_eq_final): a class that ends elsewhere answers a question wrongly on one of the two paths
+                found_input = True
+                ctx.violation("predicate class %s: the final values of the predicate on (A,B) and of its converse on (B,A) after mirrored events are %s, the model "
+                              "(both equal by theorem converse_run_final) says %s" % (kindname, e[3], g[3]),
+                              {"kind": "failing-input", "stream": "pred-converse", "case": case, "impl": exp, "model": got,
+                               "fields": "V kind dimA dimB | envA | envB | events locA locB dim -> flags(k) flags(converse k) [requireCovers(A) requireCovers(B) "
+                                         "requireExteriorCheck(A) requireExteriorCheck(B) requireInteraction], values after init(dims) and init(envs) (k, converse), final values"},
+                              signature={"conjunct": "pred-converse", "part": part, "kind": kindname})
+            else:
+                ctx.violation("predicate class %s: %s of the predicate / its converse differ from the model (impl %s, model %s): the requirement flags steer which "
+                              "points RelateNG tests (requireExteriorCheck), its envelope exits (requireCovers, requireInteraction); Props/C02Conv proves the model's "
+                              "flags of a predicate and of its converse mirror images, so that k(A,B) and converse-k(B,A) run the same computation"
+                              % (kindname, part, exp, got),
+                              {"kind": "tie-broken", "correspondence": "pred-converse", "case": case, "impl": exp, "model": got}, nofail=True,
+                              signature={"conjunct": "pred-converse", "part": part, "kind": kindname})
     r = verif.run_stream(exe, "relate-dbl", ctx.seed, n, ctx.work, shards=8, driver_exe=DRV, timeout=6000)
     corr = {"im-algebra": corr_alg, **corr_extra, "relate-dbl": {"cases": r["cases"], "disagreements": len(r["disagreements"]) + r.get("more_disagreements", 0),
                            "distribution": {k: v for k, v in r["stats"].items() if not k.startswith("matrix_")},
